@@ -141,6 +141,9 @@ def _extint_cases(draw, tier):
             case["num_streams"] = draw(st.integers(1, N))
             case["cfg_dict_reused"] = draw(st.sampled_from(
                 [None, None] + [x for x in range(1, N + 1)]))
+        case["prev_metric"] = draw(st.sampled_from(
+            [None, None, None, "capacity", "effective_throughput", "naive",
+             "fixed", "None"]))
         if metric == "effective_throughput":
             case["mod"] = draw(st.sampled_from(_MODS))
             case["packet_length"] = draw(st.sampled_from([1, 8, 60, 120,
@@ -404,6 +407,19 @@ def _check_extint(case, ctx):
         obj.noise_var = noise
         obj.pe = pe
     if variant != "whitening":
+        prev = case.get("prev_metric")
+        if prev is not None:
+            # the object was configured for another metric before (a sweep
+            # over metrics on one object): only the last setting counts
+            ctx.label("metric_reconfigured_from:" + prev)
+            if prev in ("naive", "fixed"):
+                obj.set_ext_int_handling_metric(prev, {"num_streams": 1})
+            elif prev == "effective_throughput":
+                obj.set_ext_int_handling_metric(
+                    prev, {"modulator": _modulator(["QPSK", 4]),
+                           "packet_length": 60})
+            else:
+                obj.set_ext_int_handling_metric(prev)
         if metric in ("naive", "fixed"):
             cfg_dict = {"num_streams": int(case["num_streams"])}
             obj.set_ext_int_handling_metric(metric, cfg_dict)
